@@ -111,6 +111,36 @@ def rule_accumulators_accumulate(ctx: Ctx) -> None:
     ctx.add("1-all-operands", MOD, "", True, f"{n} loop-carried value(s) examined", key="fold-scan")
 
 
+def rule_names_and_values_aligned(ctx: Ctx) -> None:
+    """Names and values that are zipped position by position must be two views of ONE mapping (`d.keys()` with `d.values()`) or
+    the values must be looked up by those very names (`[d[n] for n in names]`): names taken from somewhere else (`self.dims`)
+    are in a different order - the combinations then carry the values of one dimension under the name of another."""
+    n = 0
+    for fn in [f for f in ctx.prog.functions.values() if f.module.name == MOD]:
+        d = Defs(fn)
+        for loop in [lp for lp in walk_no_nested(fn.node) if isinstance(lp, ast.For) and isinstance(lp.target, ast.Name) and isinstance(lp.iter, ast.Call) and dotted(lp.iter.func).rsplit(".", 1)[-1] in ("product", "zip")
+                     and len(lp.iter.args) == 1 and isinstance(lp.iter.args[0], ast.Starred)]:
+            vals = d.resolve(loop.iter.args[0].value)
+            for z in [c for st in loop.body for c in ast.walk(st) if isinstance(c, ast.Call) and dotted(c.func) == "zip" and len(c.args) == 2 and isinstance(c.args[1], ast.Name) and c.args[1].id == loop.target.id]:
+                names = d.resolve(z.args[0])
+                if not (isinstance(vals, ast.Call) and isinstance(vals.func, ast.Attribute) and vals.func.attr == "values" and not vals.args):
+                    continue
+                n += 1
+                base = norm(vals.func.value)
+
+                def aligned(e: ast.AST) -> bool:
+                    t = norm(e)
+                    return t in (f"{base}.keys()", base, f"list({base})", f"tuple({base})", f"list({base}.keys())", f"tuple({base}.keys())")
+
+                arms = [names.body, names.orelse] if isinstance(names, ast.IfExp) else [names]
+                good = all(aligned(a) for a in arms)
+                foreign = [a for a in arms if not aligned(a) and isinstance(a, (ast.Attribute, ast.Name, ast.Call))]
+                ctx.tri("4-arms", fn, z, good, bool(foreign), f"`{norm(z)[:50]}`: names and values are two views of `{base}`",
+                        f"`{norm(z)[:50]}` pairs the values of `{base}` (in the order of that dict) with names taken from `{norm(foreign[0])[:40] if foreign else ''}`: when the two orders differ the combinations carry the values of one dimension under another's name",
+                        f"origin of the names `{norm(names)[:40]}` not recognised", key=f"aligned {fn.name}")
+    ctx.add("4-arms", MOD, "", True, f"{n} position-wise pairing(s) of names with product values examined", key="aligned-scan")
+
+
 def rule_all_operands(ctx: Ctx) -> None:
     prod = ctx.prog.func(f"{MOD}.Sweep.product")
     vararg, loop = _merge_loop(prod)
@@ -494,7 +524,7 @@ def rule_closures_and_names(ctx: Ctx) -> None:
 
 
 def check(ctx: Ctx) -> None:
-    for rule in (rule_all_operands, rule_accumulators_accumulate, rule_reads_dims, rule_len_mirror, rule_arms, rule_shape, rule_pure, rule_derivers_kept, rule_closures_and_names):
+    for rule in (rule_all_operands, rule_accumulators_accumulate, rule_names_and_values_aligned, rule_reads_dims, rule_len_mirror, rule_arms, rule_shape, rule_pure, rule_derivers_kept, rule_closures_and_names):
         ctx.run(rule)
 
 
